@@ -1,4 +1,4 @@
-import NodisVerif.Proofs.TxProgSimC
+import NodisVerif.Proofs.TxProgSimG
 /-
   Program model of tx.go: every step is simulated by the protocol model; hence every run emits a trace the
   protocol model accepts (under the callers' conditions `Guarded`, discharged in Proofs/TxProgGuard.lean).
@@ -65,6 +65,19 @@ theorem sim_step {c c' : Cfg} {p : PState} {t : Tid} {ch : Choice} {e : Option E
     case c11 => exact case_c11 hs hpc hts
     case c12 => exact case_c12 hs hpc hts
     case cend => exact case_cend hs hpc hts
+    case g1 => exact case_g1 hs hpc hts
+    case g2 => exact case_g2 hs hpc hts
+    case g3 => exact case_g3 hs hpc hts
+    case g4 => exact case_g4 hs hpc hts
+    case g5 => exact case_g5 hs hpc hts
+    case g6 => exact case_g6 hs hpc hts
+    case g7 => exact case_g7 hs hpc hts
+    case g8 => exact case_g8 hs hg hpc hts
+    case g9 => exact case_g9 hs hpc hts
+    case g10 => exact case_g10 hs hpc hts
+    case g11 => exact case_g11 hs hpc hts
+    case g12 => exact case_g12 hs hpc hts
+    case g13 => exact case_g13 hs hpc hts
 
 /-- the callers' conditions hold at every step of the schedule that is taken -/
 def GuardedRun (c : Cfg) : List (Tid × Choice) → Prop
